@@ -99,4 +99,33 @@ RestartKeepsVoteRule ==
 \* vacuity probes (expected to be violated)
 NeverFinalizes == \A v \in Honest : fin[v] = <<>>
 NeverForks == \A a, b \in blocks : SameChain(a, b)
+
+------------------------------------------------------------------------
+\* Synchronous all-honest operation (C03, last clause): every proposal reaches every node before the next one.
+SyncPropose(v) ==
+  /\ NewCount < MaxBlocks
+  /\ LET p == best[v]
+         b == Append(p, <<v, ShouldVote(v, p)>>)
+         NewSt(w) == IF w = v THEN CommitRec(St(w), w, b)
+                     ELSE IF b \notin seen[w] /\ Par(b) \in seen[w] /\ Accepts(fin[w], b) THEN CommitRec(St(w), w, b) ELSE St(w)
+     IN /\ b \notin blocks
+        /\ blocks' = blocks \cup {b}
+        /\ seen' = [w \in Honest |-> NewSt(w).seen]
+        /\ best' = [w \in Honest |-> NewSt(w).best]
+        /\ fin' = [w \in Honest |-> NewSt(w).fin]
+        /\ casts' = [w \in Honest |-> NewSt(w).casts]
+  /\ UNCHANGED <<nbyz, nrst>>
+SyncNext == \E v \in Honest : SyncPropose(v)
+SyncSpec == Init /\ [][SyncNext]_vars
+\* all nodes always agree (one chain), every honest block on a chain that already holds a justified epoch votes COM,
+\* every epoch signed by more than 2/3 is justified, and once a justified epoch exists every such epoch is committed
+\* and finality follows two qualities behind.
+SyncAgreement == \A v, w \in Honest : best[v] = best[w] /\ fin[v] = fin[w]
+SyncVotes == \A b \in blocks : (Len(b) > Len(Seed) /\ Quality(Par(b)) >= 1) => Com(b)
+SyncJustified == \A b \in blocks : (Len(b) = SP(Len(b)) /\ SumW(Voters(b)) > ThrW) => Justified(b) /\ Quality(b) = Quality(AncAt(b, CP(Len(b)) - 1)) + 1
+SyncCommitted == \A b \in blocks :
+   (Len(b) = SP(Len(b)) /\ CP(Len(b)) > Len(Seed) /\ Justified(b) /\ Quality(AncAt(b, CP(Len(b)) - 1)) >= 1) => Committed(b)
+SyncFinality == \A v \in Honest : \A b \in seen[v] :
+   (Len(b) = SP(Len(b)) /\ Committed(b) /\ Quality(b) > 1 /\ IsAnc(b, best[v]))
+      => Len(fin[v]) >= Len(FindCP(Quality(b) - 1, <<>>, b)) /\ FindCP(Quality(b) - 1, <<>>, b) # NoBlock
 =============================================================================
